@@ -149,6 +149,9 @@ class EvalMixin:
                 hint = SP.GLOBAL_HINTS.get(path + ":" + name)
                 v = self.hget(st, "@" + path + ":" + name, z3.IntVal(0))
                 return self.concretize(st, self.from_val(st, v, hint)) if hint else SV("val", v)
+            if (path + ":" + name) in SP.GLOBAL_HINTS and name not in mod.defs and name not in mod.classes and \
+                    SP.GLOBAL_HINTS[path + ":" + name].startswith("role:"):
+                return self.singleton(st, path + ":" + name, SP.GLOBAL_HINTS[path + ":" + name])
             if name in mod.defs:
                 return SV("func", mod.defs[name], x={"module": path, "env": None, "cls": None, "qual": name})
             if name in mod.classes:
@@ -741,6 +744,15 @@ class EvalMixin:
                    "e": (Ev.e, "val"), "f": (Ev.f, "val"), "g": (Ev.g, "val")}[attr]
             return [Res(st, SV(acc[1], acc[0](obj.t)))]
         if k == "val":
+            if not st.spec:
+                # narrowing by a preceding isinstance test
+                for tester, kind, acc in ((Val.is_StrV, "str", Val.sv), (Val.is_BytesV, "bytes", Val.yv)):
+                    if self.implied(st, tester(obj.t)):
+                        return self.getattr(st, SV(kind, acc(obj.t)), attr)
+                if self.implied(st, z3.And(Val.is_RefV(obj.t), issub(clsof(Val.rv(obj.t)), self.ct.id("dict")))):
+                    # isinstance(x, dict) established on this path (subclasses of dict behave as dicts for the methods used)
+                    st.assume(clsof(Val.rv(obj.t)) == self.ct.id("dict"))
+                    return self.getattr(st, SV("dict", Val.rv(obj.t)), attr)
             if st.spec or self.implied(st, Val.is_RefV(obj.t)):
                 r = Val.rv(obj.t)
                 if attr == "__class__":
@@ -748,10 +760,10 @@ class EvalMixin:
                 return [Res(st, SV("val", self.hget(st, attr, r)))]
             if attr == "__class__":
                 return [Res(st, SV("cls", self.class_of_val(obj.t)))]
-            # narrowing by a preceding isinstance test
-            for tester, kind, acc in ((Val.is_StrV, "str", Val.sv), (Val.is_BytesV, "bytes", Val.yv)):
-                if self.implied(st, tester(obj.t)):
-                    return self.getattr(st, SV(kind, acc(obj.t)), attr)
+            if attr in ("keys", "items", "values", "get", "append", "update", "pop", "write", "flush"):
+                # a primitive value (None, int, float, bool, str, bytes) has no such attribute; an object may
+                return self.may_raise(st, Val.is_RefV(obj.t), "AttributeError",
+                                      lambda s: [Res(s, SV("val", self.hget(s, attr, Val.rv(obj.t))))])
             raise Unsupported("attribute %s of untyped value" % attr)
         if k == "func":
             # attributes stored on function objects (wrapper.debug): one heap cell per (function node, attr)
